@@ -5,6 +5,8 @@ import math
 import numpy as np
 from hypothesis import strategies as st
 
+from ..core import sampled_from  # noqa: E402
+
 from .. import build, datagen, meshgen, refmodel, writers
 from .. import sphere as S
 from ..core import Failure
@@ -33,22 +35,22 @@ BUDGET = {
 @st.composite
 def _case(draw, tier):
     big = tier != "quick"
-    src = draw(st.sampled_from(["topology", "topology", "mpas"]))
+    src = draw(sampled_from(["topology", "topology", "mpas"]))
     if src == "mpas":
         mesh = draw(meshgen.voronoi_mesh(6, 26 if big else 14))
     else:
         mesh = draw(meshgen.any_mesh(max_pts=34 if big else 16, tiny=True))
-    centred = draw(st.sampled_from(["face", "face", "node"]))
+    centred = draw(sampled_from(["face", "face", "node"]))
     n = len(mesh["faces"]) if centred == "face" else len(mesh["nodes"])
     return {
         "mesh": mesh,
         "src": src,
-        "radius": draw(st.sampled_from([1.0, 6371229.0])),
+        "radius": draw(sampled_from([1.0, 6371229.0])),
         "edge_seed": draw(st.integers(0, 999)),
-        "withhold": sorted(draw(st.sets(st.sampled_from(["dvEdge", "dcEdge"])))) if src == "mpas" else [],
+        "withhold": sorted(draw(st.sets(sampled_from(["dvEdge", "dcEdge"])))) if src == "mpas" else [],
         "centred": centred,
         "data": draw(datagen.data_spec(n, dtypes=["float64", "float32", "int64", "int32"], vmax=8)),
-        "constant": draw(st.sampled_from([False, False, False, True])),
+        "constant": draw(sampled_from([False, False, False, True])),
         "order": draw(st.permutations([0, 1, 2, 3])),
     }
 
